@@ -409,6 +409,18 @@ func (core *JApiCore) processSchemaContentJSightAllOf(sc *catalog.SchemaContentJ
 	return nil
 }
 
+// objectPropertyLike finds the property of the object sc which has the same key
+// as v. A key written as a user type reference (@k : 1, any key of that type)
+// and a literal key with the same text ("@k": 1) are two different properties.
+func objectPropertyLike(sc, v *catalog.SchemaContentJSight) *catalog.SchemaContentJSight {
+	for _, c := range sc.Children {
+		if c.Key != nil && *(c.Key) == *(v.Key) && c.IsKeyUserTypeRef == v.IsKeyUserTypeRef {
+			return c
+		}
+	}
+	return nil
+}
+
 func (core *JApiCore) inheritPropertiesFromUserType(
 	sc *catalog.SchemaContentJSight,
 	uut *catalog.StringSet,
@@ -441,7 +453,7 @@ func (core *JApiCore) inheritPropertiesFromUserType(
 			return fmt.Errorf(jerr.InternalServerError)
 		}
 
-		p := sc.ObjectProperty(*(v.Key))
+		p := objectPropertyLike(sc, v)
 		if p != nil && p.InheritedFrom == "" {
 			// Don't allow to override original properties.
 			return fmt.Errorf(
